@@ -351,9 +351,10 @@ func Field() *Set {
 		return storeAbs(ex, c, 0, ofLimbs(ex, c, 1, sym.Fp)), true
 	})
 	m("Sqrt", func(ex *absint.Exec, c *absint.CallCtx) (absint.Val, bool) {
-		a := loadAbs(ex, c, 1, sym.Fp)
-		isSq := sym.App(sym.Bool, "issquare", sym.Canon(a))
-		r := storeAbs(ex, c, 0, sym.Ite(isSq, sym.App(sym.Fp, "sqrt", sym.Canon(a)), sym.Const(sym.Fp, big.NewInt(0))))
+		a := sym.Canon(loadAbs(ex, c, 1, sym.Fp))
+		one := sym.Const(sym.Fp, big.NewInt(1))
+		isSq := sym.App(sym.Bool, "sqrt_ratio_qr", a, one)
+		r := storeAbs(ex, c, 0, sym.Ite(isSq, sym.App(sym.Fp, "sqrt_ratio", a, one), sym.Const(sym.Fp, big.NewInt(0))))
 		return absint.Tuple{r, isSq}, true
 	})
 	m("SqrtRatio", func(ex *absint.Exec, c *absint.CallCtx) (absint.Val, bool) {
@@ -412,27 +413,9 @@ func Odd(t *sym.Term) *sym.Term {
 	return sym.App(sym.Bool, "odd", sym.Canon(t))
 }
 
-// ofLimbs reads a *[4]uint64 of saturated limbs as a ring element (caller guarantees < modulus).
+// ofLimbs reads a *[4]uint64 of saturated limbs as a ring element.
 func ofLimbs(ex *absint.Exec, c *absint.CallCtx, i int, srt sym.Sort) *sym.Term {
-	p := ptrArg(ex, c, i)
-	if p == nil {
-		return sym.Fresh(srt, "bad", 0)
-	}
-	limbs := ex.ReadWords(c.St, p, 4)
-	allConst := true
-	v := new(big.Int)
-	for k := 3; k >= 0; k-- {
-		if !limbs[k].IsConst() {
-			allConst = false
-			break
-		}
-		v.Lsh(v, 64)
-		v.Add(v, limbs[k].C)
-	}
-	if allConst {
-		return sym.Const(srt, v)
-	}
-	return sym.App(srt, "of_limbs:"+srt.String(), limbs...)
+	return loadRing(ex, c, i, srt)
 }
 
 // Helpers returns the specification of package internal/helpers (verified by limbproof.CheckHelpers).
